@@ -17,5 +17,5 @@ for c in "$@"; do
   case $c in *:thorough) tier=thorough; id=${c%%:*};; esac
   echo "--- check $id $tier"; VERIF_REPO=$S timeout 1800 ./check $id --tier $tier 2>&1 | grep -E " x |$tier:|MACHINERY|KNOWN" > /var/tmp/seedout.txt; head -3 /var/tmp/seedout.txt | cut -c1-220; grep -E "$tier:|MACHINERY" /var/tmp/seedout.txt | cut -c1-220
 done
-rm -f /verif/replays/*.json
+rm -rf /verif/.work/scratch-replays /verif/.work/scratch-evidence
 rm -rf $S
